@@ -136,6 +136,8 @@ class Check:
 
     def undecided(self, rule, construct, detail, node=None, aux=False):
         status = SKIPPED if aux else UNDECIDED
+        if any(o.status == status and o.rule == rule and o.construct == construct and o.detail == detail for o in self.obs):
+            return
         self.obs.append(Ob(rule, construct, status, detail, self._loc(node), self._stmt(node), None, aux))
 
     def missing(self, rule, construct, detail=""):
